@@ -108,7 +108,8 @@ def run(eng, tier):
         if '<' in rs:
             eng.ob(semverlite.matches(rs, version) is False, PROP, 'idempotent', 'window:' + rs, 'the current package version %s lies inside the bid conversion window "%s": a second migration would rewrite bids again' % (version, rs))
         else:
-            eng.ob(rs in GATES, PROP, 'gate', 'constant:' + rs, 'version gate "%s" is not one of the confirmed gates %s' % (rs, sorted(GATES)))
+            lb = semverlite.lower_bound(rs)
+            eng.ob(lb is not None and lb <= MINIMUM, PROP, 'gate', 'constant:' + rs, 'version gate "%s" is not a plain lower bound at or below the supported minimum %d.%d.%d (gates seen on the pinned tree: %s)' % ((rs,) + MINIMUM + (sorted(GATES),)))
             eng.ob(semverlite.matches(rs, version) is True, PROP, 'idempotent', 'gate:' + rs, 'the stamped version %s does not pass gate "%s": repeated migration would be refused' % (version, rs))
     for r in ('approvers', 'ask_fee_info', 'bid_fee_info', 'ask_required_attributes', 'bid_required_attributes'):
         eng.ob(rows[r] > 0, PROP, 'floor-table-row', r, 'no successful path installs an override for %s (fail closed)' % r)
